@@ -81,8 +81,10 @@ class ReadBuf:
         v = self.read_string()
         if len(v) == 0:
             return 0
-        pad, f = (b'\xff', '>i') if ord(v[0:1]) & 0x80 != 0 else (b'\x00', '>I')
-        return self._parse_mpint(v, pad, f)
+        if ord(v[0:1]) & 0x80 != 0:
+            # Negative number: interpret all bytes as unsigned, then subtract 2^(8 * length) (two's complement).  Applying a signed format to every 32-bit word corrupts multi-word values.
+            return self._parse_mpint(v, b'\x00', '>I') - (1 << (8 * len(v)))
+        return self._parse_mpint(v, b'\x00', '>I')
 
     def read_line(self) -> str:
         return self._buf.readline().rstrip().decode('utf-8', 'replace')
